@@ -192,7 +192,55 @@ func (p *Prog) Func(pkg, name string) *ssa.Function {
 	if sp == nil {
 		return nil
 	}
-	return sp.Func(name)
+	if f := sp.Func(name); f != nil {
+		return f
+	}
+	// the function may have been turned into a method (same name, some receiver of this package):
+	// accepted when exactly one method of that name is declared in the package
+	return p.uniqueMethodNamed(pkg, name)
+}
+
+// SiblingMethods are methods that exist beside a package-level function of the same name (the weighted builder's
+// translation steps beside the plain builder's functions). When the plain function is looked up by bare name after
+// it was turned into a method, these are not candidates: they are anchors of their own.
+var SiblingMethods = map[string]bool{
+	"graph.WeightedAuthorizationModelGraphBuilder.parseThis":           true,
+	"graph.WeightedAuthorizationModelGraphBuilder.parseComputed":       true,
+	"graph.WeightedAuthorizationModelGraphBuilder.parseTupleToUserset": true,
+	"graph.WeightedAuthorizationModelGraphBuilder.parseRewrite":        true,
+}
+
+// uniqueMethodNamed: the one declared method called name on any named type of the package, or nil.
+func (p *Prog) uniqueMethodNamed(pkg, name string) *ssa.Function {
+	pk := p.Pkgs[pkg]
+	if pk == nil || p.SSA == nil {
+		return nil
+	}
+	var found []*ssa.Function
+	scope := pk.Types.Scope()
+	for _, n := range scope.Names() {
+		tn, ok := scope.Lookup(n).(*types.TypeName)
+		if !ok {
+			continue
+		}
+		named, ok := tn.Type().(*types.Named)
+		if !ok {
+			continue
+		}
+		for i := 0; i < named.NumMethods(); i++ {
+			m := named.Method(i)
+			if m.Name() != name || SiblingMethods[pkg+"."+n+"."+name] {
+				continue
+			}
+			if f := p.SSA.FuncValue(m); f != nil && f.Synthetic == "" {
+				found = append(found, f)
+			}
+		}
+	}
+	if len(found) == 1 {
+		return found[0]
+	}
+	return nil
 }
 
 // Method looks up method name on named type typ (pointer receiver tried first) of a repository package.
@@ -201,15 +249,14 @@ func (p *Prog) Method(pkg, typ, name string) *ssa.Function {
 	if pk == nil {
 		return nil
 	}
-	obj := pk.Types.Scope().Lookup(typ)
-	if obj == nil {
-		return nil
-	}
-	named, ok := obj.Type().(*types.Named)
-	if !ok {
-		return nil
+	var named *types.Named
+	if obj := pk.Types.Scope().Lookup(typ); obj != nil {
+		named, _ = obj.Type().(*types.Named)
 	}
 	for _, t := range []types.Type{types.NewPointer(named), named} {
+		if named == nil {
+			break
+		}
 		ms := p.SSA.MethodSets.MethodSet(t)
 		if sel := ms.Lookup(pk.Types, name); sel != nil {
 			if f := p.SSA.MethodValue(sel); f != nil {
@@ -220,7 +267,13 @@ func (p *Prog) Method(pkg, typ, name string) *ssa.Function {
 			}
 		}
 	}
-	return nil
+	// the method may have been turned into a plain function, or moved to another receiver of the package
+	if sp := p.SSAPkg[pkg]; sp != nil {
+		if f := sp.Func(name); f != nil {
+			return f
+		}
+	}
+	return p.uniqueMethodNamed(pkg, name)
 }
 
 // FuncDecl finds the syntax of a function or method ("Recv.Name" or "Name") in a repository package.
@@ -239,6 +292,22 @@ func (p *Prog) FuncDecl(pkg, name string) (*ast.FuncDecl, *packages.Package) {
 				return fd, pk
 			}
 		}
+	}
+	// function <-> method conversions keep the bare name: accept a unique declaration with that bare name
+	bare := name
+	if i := strings.LastIndex(name, "."); i >= 0 {
+		bare = name[i+1:]
+	}
+	var cands []*ast.FuncDecl
+	for _, f := range pk.Syntax {
+		for _, d := range f.Decls {
+			if fd, ok := d.(*ast.FuncDecl); ok && fd.Name.Name == bare && !SiblingMethods[pkg+"."+DeclName(fd)] {
+				cands = append(cands, fd)
+			}
+		}
+	}
+	if len(cands) == 1 {
+		return cands[0], pk
 	}
 	return nil, pk
 }
